@@ -55,6 +55,11 @@ class Node14(HasTraits):
     tags = List(Str)
 
 
+import itertools as _it  # noqa: E402
+
+_SERIAL = _it.count(1000)
+
+
 class Owner14(HasTraits):
     xs = List(Int)
     nested = List(List(Int))
@@ -74,6 +79,12 @@ class Owner14(HasTraits):
     #: prototyped from node.value; a local override must survive copying
     pval = PrototypedFrom("node", prefix="value")
     total = Property(Int, observe="xs.items")
+    #: a default that is not reproducible (a fresh number per computation)
+    #: and that nobody reads before the object is copied
+    serial = Int
+
+    def _serial_default(self):
+        return next(_SERIAL)
 
     @cached_property
     def _get_total(self):
@@ -279,6 +290,10 @@ def check_copy(ctx, o, how, hist):
         bad("state:%s" % ",".join(diff), "copy differs from the original in "
             "%s: %r vs %r" % (diff, {k: after[k] for k in diff},
                               {k: before[k] for k in diff}))
+    if d.serial != o.serial:
+        bad("unread-default", "a trait nobody had read before the copy "
+            "(its default is computed once per object) reads %r on the "
+            "original and %r on the copy" % (o.serial, d.serial))
     if o_tr != 0:
         ctx.outcome("transient-reset")
     if d.tr != 0:
